@@ -26,10 +26,26 @@ def _lst(x):
         return []
 
 
+COLD = None      # declared segment defaults read from a Model built before this process (or its parent) ran anything
+
+
+def cold_defaults():
+    global COLD
+    if COLD is None:
+        from .c07 import build
+        m = build('Print Output to Console, 0\n', read=False)
+        COLD = {'g': [float(x) for x in m.reserv.gradient.DefaultValue], 'th': [float(x) for x in m.reserv.layerthickness.DefaultValue]}
+    return COLD
+
+
 def project(stage, model, ctx):
     r = model.reserv
     if stage == 'params_read':
         ctx['depth0'] = float(r.depth.quantity().to('m').magnitude)
+        # segment slots the input leaves to the declared defaults (list-style `Gradients, ...` / `Thicknesses, ...` lines set them all)
+        given = set(model.InputParameters.keys())
+        ctx['omitted'] = {'g': [] if 'Gradients' in given else [k for k in range(1, 5) if f'Gradient {k}' not in given],
+                          'th': [] if 'Thicknesses' in given else [k for k in range(1, 5) if f'Thickness {k}' not in given]}
         return
     if stage == 'reservoir_calculated':
         fam = type(r).__name__
@@ -43,6 +59,15 @@ def project(stage, model, ctx):
                       'depth0': rat(ctx.get('depth0')), 'depth': rat(float(r.depth.quantity().to('m').magnitude)),
                       'trock': rat(r.Trock.value), 'tinj': rat(model.wellbores.Tinj.value),
                       'model': MODELS.get(getattr(r.resoption.value, 'name', ''), str(getattr(r.resoption.value, 'name', 'other')))}
+        # a slot the input leaves alone holds the declared default (whatever this process ran before)
+        cold, om = COLD or {}, ctx.get('omitted', {})
+        dflt = []
+        if cold:
+            for k in om.get('g', []):
+                if k <= n and k <= len(cold['g']):
+                    dflt.append({'slot': f'Gradient {k}', 'got': rat(g[k - 1]), 'want': rat(max(cold['g'][k - 1], 1e-6))})      # (the reader floors a gradient at 1e-6 degC/m)
+            # (thicknesses are rescaled km -> m by the reader, also the defaults: only the gradients are compared as declared)
+        ctx['c05']['dflt'] = dflt
     if stage == 'wellbores_calculated' and 'c05' in ctx:
         w = model.wellbores
         ctx['c05'].update(tres=rats(_lst(r.Tresoutput.value)), tprod=rats(_lst(w.ProducedTemperature.value)),
@@ -112,6 +137,21 @@ def build_jobs(tier: str) -> list:
         p.update({'Reservoir Depth': gen.fmt(rng.uniform(1.0, 1.8)), 'Gradient 1': gen.fmt(rng.uniform(20, 28)), 'Injection Temperature': 70,
                   'Surface Temperature': 10, 'Maximum Drawdown': 1})
         jobs.append((f'cold{k}:rm{p["Reservoir Model"]}', gen.to_text(p)))
+    # inputs that leave segment slots to the declared defaults; they come last, so every worker has run other inputs before them
+    for k in range(12 if tier == 'quick' else 60):
+        p = gen.base(rng, 4, 2, 9, 2, lifetime=3, steps=2)
+        mode = k % 3
+        if mode == 0:
+            p.pop('Gradient 1', None)
+        elif mode == 1:
+            p['Number of Segments'] = 2
+            p['Thickness 1'] = gen.fmt(rng.uniform(0.5, 1.5))
+        else:
+            p['Number of Segments'] = 3
+            p['Gradient 2'] = gen.fmt(rng.uniform(30, 60))
+            p['Gradient 3'] = gen.fmt(rng.uniform(30, 60))
+            p['Thickness 1'] = gen.fmt(rng.uniform(0.5, 1.0))
+        jobs.append((f'declared-defaults#{k}', gen.to_text(p)))
     return jobs
 
 
@@ -163,6 +203,7 @@ def validate(res: Result, out: list) -> dict:
 
 def run(tier: str) -> int:
     res = Result('C05', tier)
+    cold_defaults()      # in the parent, before anything ran: the forked workers inherit the cold values
     cfg = f'MC_Resource_walk_{tier}.cfg'
     r = tlc.run_tlc('Resource', cfg, workers=1, timeout=1800)
     tlc.check_mc(r, cfg, ['IntersectLayer', 'FindLayer', 'CapDepth', 'BottomHole', 'FindDrawdown'])
